@@ -65,6 +65,7 @@ def run(F, R, tier):
             R.note("tables/justified_sites.json names a site that no longer exists: %s" % k)
 
     who_calls(F, R, A)
+    recursion_bounds(F, R, A, fns)
     emission_link(F, R)
     # print!/eprint! panic when the descriptor fails ("failed printing to stdout"): every remaining use in run-time code
     from .lib import mir as M
@@ -118,6 +119,79 @@ def emission_link(F, R):
                     bad.append("%s[%s] reaches %s" % (var, ctx, s.minh))
     R.ob("emission-link", "no emitted instruction consumes operands below what its construct was given (all statement and expression arms)", not bad and n > 500,
          "%d paths; violations: %s" % (n, bad[:3]))
+
+
+def recursion_bounds(F, R, A, fns):
+    """'unbounded recursion' inside the interpreter itself: every directly self-recursive run-time function must carry
+    a fuel parameter (each recursive call passes `fuel - 1`), and every outside caller must pass a fuel value that a
+    dominating test bounds by a constant *in the unsigned type it is passed in* — a test made on a signed copy followed
+    by `as usize` lets a negative value through as 2^64-1, and the recursion then runs until the Rust stack is gone."""
+    from .lib import mir as M
+    from .lib import panics as P
+    n_rec = 0
+    for p in sorted(fns):
+        if p not in A.cg.edges.get(p, ()):
+            continue
+        g = F.fns[p]
+        if not g.get("mir"):
+            continue
+        B = M.Body(g)
+        rec_calls = [(bi, b["term"]) for bi, b in enumerate(B.blocks) if not b.get("cleanup") and b["term"]["k"] == "call" and b["term"].get("callee") == p]
+        if not rec_calls:
+            continue
+        n_rec += 1
+        fuel = None
+        for i in range(1, B.arg_count + 1):
+            nm = B.local_name(i)
+            ty = (B.local_ty(i) or "").strip()
+            if ty not in ("usize", "u8", "u16", "u32", "u64"):
+                continue
+            ok_all = True
+            for bi, t in rec_calls:
+                if i - 1 >= len(t["args"]):
+                    ok_all = False
+                    break
+                a = B.sym_op(t["args"][i - 1], through_vars="pure")
+                sh = M.show(a)
+                if not (sh.replace(" ", "") in ("(%sSubWithOverflow1).0" % nm, "(%sSub1)" % nm, "(%sSubUnchecked1)" % nm)):
+                    ok_all = False
+                    break
+            if ok_all:
+                fuel = (i, nm)
+                break
+        if fuel is None:
+            R.ob("recursion-bounded", "%s: recursion consumes a fuel parameter" % H.last(p), False,
+                 "no unsigned parameter is decremented by every recursive call: the depth of the recursion is bounded by data only (assumption A2)", F.loc(g))
+            continue
+        R.ob("recursion-bounded", "%s: every recursive call passes %s - 1" % (H.last(p), fuel[1]), True, "%d recursive calls" % len(rec_calls), F.loc(g))
+        sites, addr = A.callers_of(p)
+        for (q, bi) in sorted(sites):
+            if q == p:
+                continue
+            Bq = A.body(q)
+            t = Bq.blocks[bi]["term"]
+            a = Bq.sym_op(t["args"][fuel[0] - 1], through_vars="pure")
+            cx = P.Ctx(Bq, F)
+            facts, _ = P.edge_facts(Bq, cx, bi)
+            la = cx.lin(a)
+            # signed → unsigned casts inside the argument (after whatever was tested)
+            signed_cast = [M.show(x)[:40] for x in M.subterms(a) if x[0] == "cast" and x[1] in ("usize", "u64", "u32") and
+                           (cx.ty_of(x[2]) or "").strip() in ("i64", "i32", "isize", "i16", "i8")]
+            bound = None
+            for l, rel in facts:
+                if rel != ">=":
+                    continue
+                # K - arg >= 0  ⇒  l + arg is a constant
+                ssum = l.add(la)
+                if ssum.is_const() and not la.is_const():
+                    bound = ssum.k if bound is None else min(bound, ssum.k)
+            if la.is_const():
+                bound = la.k
+            ok = bound is not None and bound <= 4096 and not signed_cast
+            R.ob("recursion-bounded", "%s → %s: the fuel passed is bounded" % (H.last(q), H.last(p)), ok,
+                 "fuel argument %s; dominating bound: %s%s" % (M.show(a)[:60], bound, ("; converted from a signed value after the test: %s" % signed_cast) if signed_cast else ""),
+                 F.loc(F.fns[q], t.get("line")))
+    R.count("self-recursive run-time functions", n_rec)
 
 
 def who_calls(F, R, A):
